@@ -96,7 +96,10 @@ Section Ladder.
       if str_eqb base $"command" && mem_str (nth 1 tokens []) COMMAND_V_FLAGS then Allow
       else match skip_wrapper_args base (tl tokens) with
            | [] => Ask
-           | inner => recurse inner
+           | inner =>
+               (* only bash reads NAME=value words as assignments (so they may follow the keyword time); a wrapper
+                  program runs such a word as a command: an unknown program *)
+               if negb (str_eqb base $"time") && is_assignment (hd [] inner) then Ask else recurse inner
            end
     else if mem_str base SIMPLE_SAFE then Allow
     else
